@@ -1,0 +1,44 @@
+//go:build verif
+
+// Contracts for package arch, checked by /verif/gvc (contract-based deductive
+// verification).  This file is comment-only: with the build tag off it does
+// not exist for the compiler, with it on it adds nothing but a package clause.
+package arch
+
+//@ import "io"
+//@ import "archive/tar"
+//@ import "time"
+//@ import "github.com/goreleaser/nfpm/v2"
+//
+//@ func (a ArchLinux) Package(info *nfpm.Info, w io.Writer) (err error)
+//@   requires info != nil
+//@   requires !flag("failed") && !flag("clockRead") && !flag("envRead")
+//@   ensures [C06] loud: implies(err == nil, !flag("failed"))
+//@   ensures [C07] no-clock: implies(!old(info.MTime.IsZero()), !flag("clockRead"))
+//@   ensures [C07] no-env: !flag("envRead")
+//@   modifies [C11 C12] &info.Arch, &info.Contents
+//
+//@ inline func createFilesInTar(info *nfpm.Info, tw *tar.Writer) (entries []MtreeEntry, totalSize int64, err error)
+//@   loop 0
+//@     invariant [C06] no-failure-so-far: !flag("failed")
+//@     invariant [C07] no-clock-so-far: implies(!old(info.MTime.IsZero()), !flag("clockRead"))
+//@     invariant [C11 C12] plan-still-fresh: nfpm.SpecPlanOK(info.Contents, !old(info.MTime.IsZero()))
+//
+//@ inline func createPkginfo(info *nfpm.Info, tw *tar.Writer, totalSize int64) (entry *MtreeEntry, err error)
+//@   loop 0
+//@     invariant [C06] no-failure-so-far: !flag("failed")
+//@   loop 1
+//@     invariant [C06] no-failure-so-far: !flag("failed")
+//@   loop 2
+//@     invariant [C06] no-failure-so-far: !flag("failed")
+//@   loop 3
+//@     invariant [C06] no-failure-so-far: !flag("failed")
+//@   loop 4
+//@     invariant [C06] no-failure-so-far: !flag("failed")
+//
+//@ inline func createMtree(tw *tar.Writer, entries []MtreeEntry, mtime time.Time) (err error)
+//@   loop 0
+//@     invariant [C06] no-failure-so-far: !flag("failed")
+//
+//@ inline func writeScripts(w io.Writer, scripts map[string]string) (err error)
+//@   loop 0 unroll 7
